@@ -118,6 +118,75 @@ def _make_tree(t, names=None, route="ctor"):
     return Tree(n, names=nm, **cols)
 
 
+# ---- row orders: "all trees" includes trees whose root (the node with parent -1) is NOT stored in the first row ----------------------
+# An SWC file lists its nodes in any order (read_swc without sort_nodes keeps the file order and only warns), Tree(n, pid=…) accepts
+# any numbering.  "The root" of the property text is the node without parent, wherever it is stored.
+ROW_ORDERS = ["root-last", "root-middle", "root-second", "reversed"]
+ROW_ROUTES = ["ctor", "swc-file", "dataframe"]
+
+
+def _root_row(t):
+    """the row of the root (the first row whose parent is -1; 0 for every root-first numbering)"""
+    try:
+        return list(t["pids"]).index(-1)
+    except ValueError:
+        return 0
+
+
+def _reorder(rng, t, order):
+    """the same tree with its rows stored in another order (ids = rows, parents renumbered with them): the root in the last row / a
+    middle row / the second row, the other rows shuffled; or the whole table reversed (every child before its parent)"""
+    n = t["n"]
+    if n < 2:
+        return t
+    r0 = _root_row(t)
+    rest = [i for i in range(n) if i != r0]
+    if order == "reversed":
+        rows = list(range(n - 1, -1, -1))
+        if rows[0] == r0:
+            rows = rows[1:] + rows[:1]
+    else:
+        rng.shuffle(rest)
+        j = {"root-last": n - 1, "root-second": 1}.get(order, max(1, n // 2))
+        rows = rest[:j] + [r0] + rest[j:]
+    new = {old: k for k, old in enumerate(rows)}          # old row -> new row
+    out = dict(t)
+    out["pids"] = [-1 if t["pids"][old] == -1 else new[t["pids"][old]] for old in rows]
+    for f in ("types", "xyz", "r"):
+        out[f] = [t[f][old] for old in rows]
+    return out
+
+
+def _make_tree_route(t, route):
+    """the real Tree of a tree case through a construction route: the constructor, a data frame, or an SWC file whose lines are in
+    the row order of the case (read with the default options, i.e. without sort_nodes).  In the file the root has the id 1 and the
+    other nodes 2, 3, … in line order, so the file is a consistent SWC table whose lines are merely not sorted by id."""
+    if route == "dataframe":
+        return _make_tree(t, {f: f for f in FIELDS}, "dataframe")
+    if route != "swc-file":
+        return gen.make_tree(t)
+    import os
+    import tempfile
+    import warnings
+
+    from swcgeom.core import Tree
+
+    f32 = lambda v: repr(float(np.float32(v)))
+    r0 = _root_row(t)
+    fid = {i: 1 if i == r0 else (i + 2 if i < r0 else i + 1) for i in range(t["n"])}
+    body = "".join(f"{fid[i]} {t['types'][i]} {f32(t['xyz'][i][0])} {f32(t['xyz'][i][1])} {f32(t['xyz'][i][2])} {f32(t['r'][i])} "
+                   f"{fid[t['pids'][i]] if t['pids'][i] >= 0 else -1}\n" for i in range(t["n"]))
+    fd, path = tempfile.mkstemp(suffix=".swc")
+    try:
+        with os.fdopen(fd, "w") as fh:
+            fh.write("# id type x y z r pid\n" + body)
+        with warnings.catch_warnings():
+            warnings.simplefilter("ignore")
+            return Tree.from_swc(path)
+    finally:
+        os.unlink(path)
+
+
 # ---- placements: where the tree sits in the coordinate frame ---------------------------------------------------------------------
 # "all trees" includes trees whose root / nodes have coordinates that are EXACTLY 0 without the root being the origin: planar (2D)
 # tracings with one coordinate 0 on every node, a soma put on a coordinate plane or a coordinate axis, a tree moved along one
@@ -409,12 +478,32 @@ class Affine(Suite):
                         c["mdtype"] = rng.choice(MDTYPES)
                     out.append(c)
                 kp += 1
+        # "all trees": every row order (see _reorder) x every construction route x every kind; the centre modes cycle so that every kind
+        # meets every row order about the root (spelled root / soma / left out) and about the origin in every run
+        kr = 0
+        for rep in range(6 if big else 2):
+            for order in ROW_ORDERS:
+                n = [5, 3, 9, 2, 20, 4][kr % 6] if not big else rng.choice([2, 3, 5, 9, 20, 60])
+                t0 = gen.tree_case(rng, n, gen.pick_shape(rng, kr + 2), numbering=rng.choice(["sorted", "root0"]), coords="dyadic")
+                t = _reorder(rng, t0, order)
+                rt = ROW_ROUTES[(kr + kr // len(ROW_ORDERS)) % len(ROW_ROUTES)]
+                for j, (kind, a) in enumerate(_kinds(rng, kr)):
+                    center = CENTRES[(kr + j) % 4] if kind != "translate_origin" else "default"
+                    cls = kind
+                    if kind == "scale" and any(v <= 0 for v in a):
+                        cls = "scale-flat" if any(v == 0 for v in a) else "scale-mirror"
+                    c = {"class": f"{cls}/{center}/rows-{order}/{rt}", "tree": t, "kind": kind, "a": a, "center": center, "rows": order,
+                         "tree_route": rt, "warm": rng.random() < 0.3, "num": rng.choice(NUMS) if kind in ("translate", "scale") else "float"}
+                    if kind == "affine_m":
+                        c["mdtype"] = rng.choice(MDTYPES)
+                    out.append(c)
+                kr += 1
         return out
 
     def run(self, case):
         names, route, num = case.get("names"), case.get("route", "ctor"), case.get("num", "float")
         md = case.get("mdtype", "float64")
-        t = _make_tree(case["tree"], names, route)
+        t = _make_tree_route(case["tree"], case["tree_route"]) if case.get("tree_route") else _make_tree(case["tree"], names, route)
         before = {k: v.copy() for k, v in t.ndata.items()}
         tr = _transform(case["kind"], case["a"], case["center"], num, md)
         # the inverse transform is built BEFORE the forward one is applied: transform objects are values, several are alive at once
@@ -442,6 +531,9 @@ class Affine(Suite):
         res = {"xyz": y.xyz().astype(np.float64).tolist(), "pid": y.pid().tolist(), "type": y.type().tolist(),
                "r": y.r().astype(np.float64).tolist(), "id": y.id().tolist(),
                "input_changed": any(not np.array_equal(before[k], t.ndata[k]) for k in before), "via_classmethod": via_classmethod}
+        if case.get("tree_route"):
+            # the id / parent / type columns of the tree as built (a file read keeps the ids of the file relative to the root's id)
+            res["built"] = {"id": t.id().tolist(), "pid": t.pid().tolist(), "type": t.type().tolist()}
         if inv is not None:
             res["back"] = inv(y).xyz().astype(np.float64).tolist()
         return res
@@ -456,7 +548,7 @@ class Affine(Suite):
         if "exc" in res or case["kind"] in ("translate_origin", "affine", "affine_h", "affine_m"):
             return self.gen_lines(case, res)
         t = case["tree"]
-        root = t["xyz"][0]
+        root = t["xyz"][_root_row(t)]
         out = []
         idxs = sorted({0, t["n"] - 1, t["n"] // 2})
         for i in idxs:
@@ -469,9 +561,9 @@ class Affine(Suite):
     def gen_lines(self, case, res):
         """the GENERATED class (constructor with this centre argument — `default` = left out —, then `__call__` / `apply`) run on the whole tree
         by the driver: every coordinate, and ids / parents / types / radii"""
-        if "exc" in res or case.get("names"):
-            return []
         t = case["tree"]
+        if "exc" in res or case.get("names") or (res.get("built") or {}).get("id", list(range(t["n"]))) != list(range(t["n"])):
+            return []          # the driver's trees are numbered by row
         kind, a, center = _gen_step(case["kind"], case["a"], case["center"])
         return [(f"gaffine kind={kind} a={a} center={center} {_tree_args(t)}",
                  {"approx": _tree_out(res["xyz"], res["id"], res["pid"], res["type"], res["r"]), "rtol": 2e-5, "atol": 2e-3})]
@@ -493,20 +585,23 @@ class Affine(Suite):
         how = (f" [factors spelled as {case['num']}]" if case.get("num", "float") != "float" else "") + \
               (f" [tree with column names {case['names']} built by {case.get('route')}]" if case.get("names") else "")
         P = np.array(t["xyz"], dtype=np.float64)
-        exp = _expected(case["kind"], case["a"], self._center(case), t["xyz"][0], P)
+        rr = _root_row(t)                  # the root is the node without parent, in whatever row it is stored
+        how += f" [root stored in row {rr} of {t['n']}, tree built by {case.get('tree_route')}]" if rr else ""
+        exp = _expected(case["kind"], case["a"], self._center(case), t["xyz"][rr], P)
         got = np.array(res["xyz"])
         tol = 2e-3 + 2e-5 * np.abs(exp).max()
         if got.shape != exp.shape or not np.allclose(got, exp, atol=tol, rtol=0):
             i = int(np.argmax(np.abs(got - exp).sum(axis=1))) if got.shape == exp.shape else -1
             out.append((f"{case['kind']}-wrong-map/{self._center(case)}",
-                        f"{case['kind']}{case['a']} center={case['center']}: node {i} at {P[i].tolist()} (root {P[0].tolist()}) went to "
+                        f"{case['kind']}{case['a']} center={case['center']}: node {i} at {P[i].tolist()} (root {P[rr].tolist()}) went to "
                         f"{got[i].tolist() if i >= 0 else got.shape}, stated map gives {exp[i].tolist() if i >= 0 else exp.shape}{how}"))
-        # "the chosen centre (… the root when requested) stays fixed under scaling and rotation": node 0 is the root
+        # "the chosen centre (… the root when requested) stays fixed under scaling and rotation": the root is the node without parent
         if (case["kind"] in ("scale", "rotx", "roty", "rotz", "rot") and self._center(case) == "root" and got.shape == exp.shape
-                and not np.allclose(got[0], P[0], atol=2e-3 + 2e-5 * np.abs(P[0]).max(), rtol=0)):
-            out.append((f"{case['kind']}-centre-moved/root", f"{case['kind']}{case['a']} center={case['center']}: the root at {P[0].tolist()} is the "
-                        f"centre and must stay fixed, it went to {got[0].tolist()}{how}"))
-        if res["pid"] != t["pids"] or res["type"] != t["types"] or res["id"] != list(range(t["n"])):
+                and not np.allclose(got[rr], P[rr], atol=2e-3 + 2e-5 * np.abs(P[rr]).max(), rtol=0)):
+            out.append((f"{case['kind']}-centre-moved/root", f"{case['kind']}{case['a']} center={case['center']}: the root at {P[rr].tolist()} is the "
+                        f"centre and must stay fixed, it went to {got[rr].tolist()}{how}"))
+        b = res.get("built") or {"id": list(range(t["n"])), "pid": t["pids"], "type": t["types"]}
+        if res["pid"] != b["pid"] or res["type"] != b["type"] or res["id"] != b["id"]:
             out.append(("topology-or-type-changed", "parent relation / types / ids changed by a geometric transform"))
         if not np.allclose(res["r"], np.array(t["r"], dtype=np.float32).astype(np.float64)):
             out.append(("radii-changed", "radii changed by a geometric transform"))
@@ -519,7 +614,7 @@ class Affine(Suite):
         return out
 
     def nontrivial(self, case, res):
-        return case["tree"]["n"] >= 2 and any(abs(v) > 0 for v in case["tree"]["xyz"][0])
+        return case["tree"]["n"] >= 2 and any(abs(v) > 0 for v in case["tree"]["xyz"][_root_row(case["tree"])])
 
 
 # ---- pipelines: a transform is applied to "all trees", in particular to the OUTPUT of another transform ---------------------------
@@ -597,10 +692,21 @@ class Pipeline(Suite):
                 steps = [_step(rng, c3), _step(rng, rng.choice(STEP_COMBOS))]
                 out.append({"class": f"pipeline/place-{pl}/" + ">".join(_step_center(st) for st in steps), "tree": tp, "steps": steps})
                 kp += 1
+        # trees whose root is not stored in the first row (see _reorder): every kind x centre mode as first step, any second step
+        kr = 0
+        for rep in range(3 if big else 1):
+            for c1 in STEP_COMBOS:
+                n = [3, 5, 9, 2][kr % 4] if not big else rng.choice([2, 3, 5, 9, 20, 60])
+                t = gen.tree_case(rng, n, gen.pick_shape(rng, kr + 2), numbering=rng.choice(["sorted", "root0"]), coords="dyadic")
+                order, rt = ROW_ORDERS[kr % len(ROW_ORDERS)], ROW_ROUTES[(kr // len(ROW_ORDERS)) % len(ROW_ROUTES)]
+                steps = [_step(rng, c1), _step(rng, rng.choice(STEP_COMBOS))]
+                out.append({"class": f"pipeline/rows-{order}/{rt}/" + ">".join(_step_center(st) for st in steps), "tree": _reorder(rng, t, order),
+                            "tree_route": rt, "steps": steps})
+                kr += 1
         return out
 
     def run(self, case):
-        t = gen.make_tree(case["tree"])
+        t = _make_tree_route(case["tree"], case.get("tree_route", "ctor"))
         before = {k: v.copy() for k, v in t.ndata.items()}
         steps = case["steps"]
         trs = [_transform(s["kind"], s["a"], s["center"], "float", s.get("mdtype", "float64")) for s in steps]
@@ -611,7 +717,8 @@ class Pipeline(Suite):
         for tr in trs:
             cur = tr(cur)
             after.append(cur.xyz().astype(np.float64).tolist())
-        res = {"after": after, "pid": cur.pid().tolist(), "type": cur.type().tolist(), "id": cur.id().tolist(),
+        built = {"id": t.id().tolist(), "pid": t.pid().tolist(), "type": t.type().tolist()}
+        res = {"after": after, "built": built, "pid": cur.pid().tolist(), "type": cur.type().tolist(), "id": cur.id().tolist(),
                "r": cur.r().astype(np.float64).tolist(),
                "input_changed": any(not np.array_equal(before[k], t.ndata[k]) for k in before)}
         if invs is not None:
@@ -632,6 +739,8 @@ class Pipeline(Suite):
         if "exc" in res or not res.get("after") or "composed" not in res:
             return []
         t, c = case["tree"], res["composed"]
+        if case.get("tree_route") and (res.get("built") or {}).get("id") != list(range(t["n"])):
+            return []          # the driver's trees are numbered by row
         steps = ";".join("/".join(_gen_step(s["kind"], s["a"], s["center"])) for s in case["steps"])
         big = max([1.0] + [abs(v) for g in res["after"] for p in g for v in p])
         return [(f"gpipe steps={steps} {_tree_args(t)}",
@@ -652,7 +761,9 @@ class Pipeline(Suite):
             return [("pipeline-raises", f"{desc} raised {res['exc']}: {res.get('msg')}")]
         out = []
         P0 = np.array(t["xyz"], dtype=np.float64)
-        # node 0 is the root in both numberings of gen.tree_case
+        # the root is the node without parent: row 0 in both numberings of gen.tree_case, another row after _reorder
+        rr = _root_row(t)
+        desc += f" [root stored in row {rr} of {t['n']}, tree built by {case.get('tree_route')}]" if rr else ""
         prev, big = P0, np.abs(P0).max()
         if len(res["after"]) != len(steps):
             return [("pipeline-malformed-output", f"{len(res['after'])} results for {len(steps)} steps")]
@@ -660,18 +771,20 @@ class Pipeline(Suite):
             got = np.array(g, dtype=np.float64)
             c = _step_center(s)
             # the stated map of THIS step applied to the tree this step was given (the observed output of the step before)
-            exp = _expected(s["kind"], s["a"], c, prev[0], prev)
+            exp = _expected(s["kind"], s["a"], c, prev[rr], prev)
             big = max(big, np.abs(exp).max())
             tol = 2e-3 + 2e-5 * max(np.abs(exp).max(), np.abs(prev).max())
             if got.shape != exp.shape or not np.all(np.isfinite(got)) or not np.allclose(got, exp, atol=tol, rtol=0):
                 j = int(np.argmax(np.abs(got - exp).sum(axis=1))) if got.shape == exp.shape else -1
                 out.append((f"{s['kind']}-wrong-map/{c}",
-                            f"step {i + 1} of [{desc}]: node {j} at {prev[j].tolist() if j >= 0 else '?'} (root {prev[0].tolist()}) went to "
+                            f"step {i + 1} of [{desc}]: node {j} at {prev[j].tolist() if j >= 0 else '?'} (root {prev[rr].tolist()}) went to "
                             f"{got[j].tolist() if j >= 0 else got.shape}, stated map gives {exp[j].tolist() if j >= 0 else exp.shape}"
                             + (f" [the tree is the output of {steps[i - 1]['kind']} center={steps[i - 1]['center']}]" if i else "")))
                 break
             prev = got
-        if res["pid"] != t["pids"] or res["type"] != t["types"] or res["id"] != list(range(t["n"])):
+        b = res.get("built") if case.get("tree_route") else None
+        b = b or {"id": list(range(t["n"])), "pid": t["pids"], "type": t["types"]}
+        if res["pid"] != b["pid"] or res["type"] != b["type"] or res["id"] != b["id"]:
             out.append(("topology-or-type-changed", f"parent relation / types / ids changed by [{desc}]"))
         r0 = np.array(t["r"], dtype=np.float32).astype(np.float64)
         if np.shape(res["r"]) != r0.shape or not np.allclose(res["r"], r0):
@@ -683,7 +796,7 @@ class Pipeline(Suite):
         return out
 
     def nontrivial(self, case, res):
-        return case["tree"]["n"] >= 2 and any(abs(v) > 0 for v in case["tree"]["xyz"][0])
+        return case["tree"]["n"] >= 2 and any(abs(v) > 0 for v in case["tree"]["xyz"][_root_row(case["tree"])])
 
 
 class Matrices(Suite):
